@@ -112,8 +112,8 @@ def make_model(kind):
 
 def table(shape, nrows, fail=None):
     """Scan table as {column: values}; `fail` = (position, mechanism) plants a failing value."""
-    ks = [0.5, 1.0, 2.0, 3.0, 4.0][:nrows]
-    xs = [0.25, 2.0, 3.0, 0.75, 1.5][:nrows]
+    ks = ([0.5, 1.0, 2.0, 3.0, 4.0] + [4.25 + 0.25 * i for i in range(nrows)])[:nrows]
+    xs = ([0.25, 2.0, 3.0, 0.75, 1.5] + [1.6 + 0.1 * ((7 * i) % 11) for i in range(nrows)])[:nrows]
     cols = {}
     if shape in ("par", "both"):
         cols["k2"] = list(ks)
@@ -471,6 +471,13 @@ def generate(tier):
             continue
         for w in (2, 16):
             cases.append({"family": "par", "kind": kind, "workers": w, "rows": 3, "model": "ia", "table": "both", "labels": labels})
+    # many more rows than workers (chunk boundaries), sequentially and on pools of 3 and 16
+    for kind in ("steady_state", "time_course", "protocol", "mc.time_course", "mc.steady_state"):
+        for rows in (17, 40):
+            if not kind.startswith("mc."):
+                cases.append({"family": "seq", "model": "cons", "table": "both", "kind": kind, "rows": rows, "read": list(range(rows - 1, -1, -1)), "view_first": "fluxes"})
+            for w in (3, 16):
+                cases.append({"family": "par", "kind": kind, "workers": w, "rows": rows, "model": "cons", "table": "both"})
     for kind in ("time_course", "steady_state"):
         for delays in it.permutations((0.0, 0.25, 0.5)):
             cases.append({"family": "order", "kind": kind, "model": "ia", "delays": list(delays)})
